@@ -148,6 +148,8 @@ func (fc *FnCtx) evalBuiltin(st *State, name string, call *ast.CallExpr) []Val {
 			}
 			L := fc.heapGet(st, "$chanlen", "(Array Int Int)")
 			fc.heapSet(st, "$chanlen", "(Array Int Int)", app("store", L, r, "0"))
+			CC := fc.heapGet(st, "$chanclosed", "(Array Int Bool)")
+			fc.heapSet(st, "$chanclosed", "(Array Int Bool)", app("store", CC, r, "false"))
 			return []Val{{T: r, Ty: ty}}
 		}
 	case "new":
@@ -514,7 +516,9 @@ func (fc *FnCtx) callStatic(st *State, callee *types.Func, call *ast.CallExpr) [
 	if r, ok := fc.builtinExtern(st, callee, recv, args, call); ok {
 		return r
 	}
-	return fc.applyCall(st, callee, recv, args, call.Pos(), call)
+	res := fc.applyCall(st, callee, recv, args, call.Pos(), call)
+	fc.ghostUpdatesAfterCall(st, callee.Name(), res)
+	return res
 }
 
 func (fc *FnCtx) callInterface(st *State, sel *ast.SelectorExpr, s *types.Selection, call *ast.CallExpr) []Val {
@@ -798,12 +802,13 @@ func (fc *FnCtx) applyContract(st *State, c *Contract, home *ContractSet, homePk
 		ps.panicV = fc.fresh("panicval", "Iface")
 		penv := *post
 		penv.cur = ps
-		for _, e := range c.EnsuresPanic {
-			fc.assume(ps, penv.evalBool(e.E))
-		}
 		pc := fc.fresh("callpanics", "Bool")
 		ps.pc = fc.define("pc", "Bool", and(st.pc, pc))
 		st.pc = fc.define("pc", "Bool", and(st.pc, not(pc)))
+		// the callee's ensures_panic clauses hold on the panicking branch only (assumed under its path condition)
+		for _, e := range c.EnsuresPanic {
+			fc.assume(ps, penv.evalBool(e.E))
+		}
 		fc.pendingPanics = append(fc.pendingPanics, ps)
 	}
 	// cs(e) in a callee's postcondition denotes the state when the callee's last critical section began:
@@ -1073,6 +1078,13 @@ func (fc *FnCtx) havocRegion(st *State, r region) {
 	}
 	fc.heapKeySort(r.key, r.sort)
 	if r.base == "" {
+		if r.key == "$chanclosed" {
+			// a closed channel stays closed
+			old := fc.heapGet(st, r.key, r.sort)
+			st.heap[r.key] = fc.fresh(r.key, r.sort)
+			fc.assume(st, fmt.Sprintf("(forall ((c Int)) (! (=> (select %s c) (select %s c)) :pattern ((select %s c))))", old, st.heap[r.key], st.heap[r.key]))
+			return
+		}
 		if r.key == "$alloc" {
 			// the allocation counter only grows
 			old := fc.heapGet(st, r.key, r.sort)
